@@ -17,6 +17,8 @@ func (du *decodeUnit) cycle(app risc.Application, inBus *comp.SimpleBus[int32], 
 		return
 	}
 	runner := app.Instructions[pc/4]
+	// Clear forward (the program may have been run by a forwarding machine)
+	runner.Forward(risc.Forward{})
 	outBus.Add(risc.InstructionRunnerPc{
 		Runner: runner,
 		Pc:     pc,
